@@ -12,6 +12,11 @@ import (
 func VfC02_LocallyAnsweredBehindQueued() {
 	nd.ConcreteClock(true)
 	be := vfNewBackend()
+	// the backend connection may also break exactly when that batch is flushed
+	writeFails := nd.Bool("the-flush-fails")
+	if writeFails {
+		be.failWriteAt = 0
+	}
 	c := vfNewClient(be, 4)
 	c.cfg = vfCompressCfg(true, 1)
 	if err := c.initFilters(); err != nil {
@@ -28,6 +33,14 @@ func VfC02_LocallyAnsweredBehindQueued() {
 	nd.Assert(vfDone(banned.done) && banned.Response().Type == Error, "the disabled command is answered by the proxy")
 	nd.Class("unflushed-behind-filtered-request", true)
 	nd.Assert(vfDone(first.done), "a request encoded before a locally answered one is flushed to the backend and answered (it does not wait for later traffic)")
+	if writeFails {
+		// every request is answered exactly once (a second completion is a crash, reported as a
+		// panic obligation) and the broken connection ends
+		nd.Assert(first.Response().Type == Error, "a request whose bytes could not be written is answered with an error")
+		nd.Assert(started, "a connection whose write failed ends")
+		nd.Cover("flush-failed")
+		return
+	}
 	nd.Assert(!started, "the connection stays up")
 	nd.Cover("answered")
 	c.Stop()
